@@ -42,46 +42,89 @@ theorem checkInvokeCB_eq (cb : Cb) : checkInvokeCB cb = ⟨if cb.isSome then [.c
 @[simp] theorem checkInvokeCB_panicking (cb : Cb) : (checkInvokeCB cb).panicking = false := by
   rw [checkInvokeCB_eq]
 
+/-! ### function values (`CbF`): `cbFunc` itself and `CallMethod`'s two closures around the variable `completed` -/
+
+/-- `CheckInvokeCBFunc` on any function value never panics and emits at most the one event
+"framework completion WITH AN ERROR": nothing for nil and for `panicCB` once `completed` is set -/
+theorem checkInvokeF_eq (f : CbF) (d : Bool) :
+    checkInvokeF f d = ⟨if f.isNil || (d && (match f with | .panicCB _ => true | _ => false)) then [] else [.cb false true], false⟩ := by
+  cases f <;> cases d <;> simp [checkInvokeF, CbF.isNil, CbF.call, invokeCb, Exec.emit, Exec.ret]
+
+@[simp] theorem checkInvokeF_panicking (f : CbF) (d : Bool) : (checkInvokeF f d).panicking = false := by
+  rw [checkInvokeF_eq]
+
+theorem checkInvokeF_nil (d : Bool) : checkInvokeF .nil d = .ret := rfl
+
+/-- **the recover path after the fix**: `panicCB` completes (with an error) iff nothing was completed before -/
+theorem checkInvokeF_panicCB (p d : Bool) : checkInvokeF (.panicCB p) d = ⟨if d then [] else [.cb false true], false⟩ := by
+  cases d <;> simp [checkInvokeF, CbF.isNil, CbF.call, invokeCb, Exec.emit, Exec.ret]
+
+theorem checkInvokeF_plain (p d : Bool) : checkInvokeF (.plain p) d = ⟨[.cb false true], false⟩ := by
+  simp [checkInvokeF, CbF.isNil, CbF.call, invokeCb, Exec.emit]
+
 /-! ### the handler body against `playComps` -/
 
-theorem playBody_none (bad : Bool) (cs : List Bool) : playBody none bad cs = .ret := by
+theorem playBody_nil (bad : Bool) (cs : List Bool) : ∀ d, playBody .nil bad cs d = (.ret, d) := by
   induction cs with
-  | nil => rfl
-  | cons c r ih => simp [playBody, ih, Exec.andThen, Exec.ret]
+  | nil => intro d; rfl
+  | cons c r ih => intro d; simp [playBody, CbF.call, ih, Exec.andThen, Exec.ret]
 
-theorem playBody_some (p bad : Bool) (cs : List Bool) :
-    (playBody (some p) bad cs).evs.filterMap compOfEv = (playComps (p && bad) cs).1 ∧
-    (playBody (some p) bad cs).evs.filterMap runOfEv = [] ∧
-    (playBody (some p) bad cs).panicking = (playComps (p && bad) cs).2 := by
+/-- the handler's own completions through `handlerCB`: they are what `playComps` lists, the body panics iff the
+(picky) `cbFunc` choked, and `completed` is set iff it was set before or AT LEAST ONE COMPLETION WENT THROUGH -/
+theorem playBody_handlerCB (p bad : Bool) (cs : List Bool) : ∀ d,
+    (playBody (.handlerCB p) bad cs d).1.evs.filterMap compOfEv = (playComps (p && bad) cs).1 ∧
+    (playBody (.handlerCB p) bad cs d).1.evs.filterMap runOfEv = [] ∧
+    (playBody (.handlerCB p) bad cs d).1.panicking = (playComps (p && bad) cs).2 ∧
+    (playBody (.handlerCB p) bad cs d).2 = (d || !(playComps (p && bad) cs).1.isEmpty) := by
   induction cs with
-  | nil => simp [playBody, playComps]
+  | nil => intro d; simp [playBody, playComps]
   | cons c r ih =>
-    obtain ⟨i1, i2, i3⟩ := ih
-    cases c <;> cases p <;> cases bad <;>
-      simp_all [playBody, playComps, invokeCb, List.filterMap_cons]
+    intro d
+    obtain ⟨i1, i2, i3, i4⟩ := ih true
+    cases c <;> cases p <;> cases bad <;> cases d <;>
+      simp_all [playBody, CbF.call, playComps, invokeCb, List.filterMap_cons]
 
-/-- every event of a handler's own completions is a completion BY THE HANDLER -/
-theorem playBody_evs_byHandler (cb : Cb) (bad : Bool) (cs : List Bool) :
-    ∀ e ∈ (playBody cb bad cs).evs, ∃ isErr, e = .cb true isErr := by
+/-- the same through `cbFunc` itself (the code before the fix of D23): `completed` is never touched -/
+theorem playBody_plain (p bad : Bool) (cs : List Bool) : ∀ d,
+    (playBody (.plain p) bad cs d).1.evs.filterMap compOfEv = (playComps (p && bad) cs).1 ∧
+    (playBody (.plain p) bad cs d).1.evs.filterMap runOfEv = [] ∧
+    (playBody (.plain p) bad cs d).1.panicking = (playComps (p && bad) cs).2 ∧
+    (playBody (.plain p) bad cs d).2 = d := by
   induction cs with
-  | nil => simp [playBody]
+  | nil => intro d; simp [playBody, playComps]
   | cons c r ih =>
-    intro e he
-    cases cb with
-    | none => rw [playBody_none] at he; simp at he
-    | some p =>
-      simp only [playBody, Exec.andThen_evs] at he
+    intro d
+    obtain ⟨i1, i2, i3, i4⟩ := ih d
+    cases c <;> cases p <;> cases bad <;> cases d <;>
+      simp_all [playBody, CbF.call, playComps, invokeCb, List.filterMap_cons]
+
+theorem CbF.call_evs_byHandler (f : CbF) (isErr bad d : Bool) :
+    ∀ e ∈ (f.call true isErr bad d).1.evs, e = .cb true isErr := by
+  intro e he
+  cases f <;> simp only [CbF.call, invokeCb] at he
+  · simp at he
+  · split at he <;> simp_all
+  · split at he <;> simp_all
+  · split at he
+    · split at he <;> simp_all
+    · simp at he
+
+/-- every event of a handler's own completions is a completion BY THE HANDLER, whatever function it was handed -/
+theorem playBody_evs_byHandler (f : CbF) (bad : Bool) (cs : List Bool) :
+    ∀ d, ∀ e ∈ (playBody f bad cs d).1.evs, ∃ isErr, e = .cb true isErr := by
+  induction cs with
+  | nil => intro d; simp [playBody]
+  | cons c r ih =>
+    intro d e he
+    simp only [playBody] at he
+    split at he
+    · exact ⟨_, CbF.call_evs_byHandler f _ _ _ e he⟩
+    · simp only [Exec.andThen_evs] at he
       split at he
-      · simp only [invokeCb] at he
-        split at he
-        · simp at he
-        · simp only [Exec.emit_evs, List.mem_singleton] at he; exact ⟨_, he⟩
+      · exact ⟨_, CbF.call_evs_byHandler f _ _ _ e he⟩
       · rcases List.mem_append.1 he with h1 | h1
-        · simp only [invokeCb] at h1
-          split at h1
-          · simp at h1
-          · simp only [Exec.emit_evs, List.mem_singleton] at h1; exact ⟨_, h1⟩
-        · exact ih e h1
+        · exact ⟨_, CbF.call_evs_byHandler f _ _ _ e h1⟩
+        · exact ih _ e h1
 
 /-- a plain completion function never panics: every completion of the handler goes through -/
 theorem playComps_plain (cs : List Bool) : playComps false cs = (cs.map Comp.h, false) := by
@@ -89,38 +132,73 @@ theorem playComps_plain (cs : List Bool) : playComps false cs = (cs.map Comp.h, 
   | nil => rfl
   | cons c r ih => simp [playComps, ih]
 
+/-- `playComps` stops at the first completion the callback chokes on: it reports a panic iff there is one -/
+theorem playComps_fst_length_le (p : Bool) (cs : List Bool) : (playComps p cs).1.length ≤ cs.length := by
+  induction cs with
+  | nil => simp [playComps]
+  | cons c r ih =>
+    simp only [playComps]
+    split
+    · simp
+    · simp only [List.length_cons]; omega
+
 /-! ### `SafeCall` -/
 
-/-- an execution of `SafeCall` never panics (the deferred recover; the error completion it makes cannot panic);
-the handler runs iff reflect accepts the arguments, once; the completions are the handler's own followed by
-one framework error completion iff the handler (or the picky callback inside it) panicked -/
-theorem safeCallX_view (h : Handler) (ctx : CtxArg) (arg : ArgV) (withCb : Bool) (cb : Cb) (b : Beh) :
-    (safeCallX h ctx arg withCb cb b).panicking = false ∧
-    (safeCallX h ctx arg withCb cb b).runs = (if typesOK h ctx arg withCb then [(h, ctx != .nil, arg)] else []) ∧
-    (safeCallX h ctx arg withCb cb b).comps =
-      (if typesOK h ctx arg withCb then
-        (match (if withCb then cb else none) with
-          | none => if b.panics && cb.isSome then [.f] else []
-          | some p => (playComps (p && b.bad) b.comps).1 ++ (if (playComps (p && b.bad) b.comps).2 || b.panics then [.f] else []))
-       else if cb.isSome then [.f] else []) := by
+/-- `SafeCall` as `CallMethod` runs a request-shaped handler SINCE THE FIX OF D23 (`handlerCB` in the arguments,
+`panicCB` for the recover): never panics; the handler runs iff reflect accepts the arguments, once; the completions
+are the handler's own that went through, followed by ONE framework error completion iff (the handler, or the picky
+callback inside it, panicked AND none of the handler's completions had gone through) — or reflect rejected the call -/
+theorem safeCallX_wrapped_view (h : Handler) (ctx : CtxArg) (arg : ArgV) (p : Bool) (b : Beh) :
+    (safeCallX h ctx arg true (.handlerCB p) (.panicCB p) b false).panicking = false ∧
+    (safeCallX h ctx arg true (.handlerCB p) (.panicCB p) b false).runs
+      = (if typesOK h ctx arg true then [(h, ctx != .nil, arg)] else []) ∧
+    (safeCallX h ctx arg true (.handlerCB p) (.panicCB p) b false).comps =
+      (if typesOK h ctx arg true then
+        (playComps (p && b.bad) b.comps).1 ++
+          (if ((playComps (p && b.bad) b.comps).2 || b.panics) && (playComps (p && b.bad) b.comps).1.isEmpty then [.f] else [])
+       else [.f]) := by
   unfold safeCallX reflectCall Exec.comps Exec.runs
+  by_cases ht : typesOK h ctx arg true = true
+  · simp only [ht, if_true, handlerBody, checkInvokeF_panicCB]
+    obtain ⟨p1, p2, p3, p4⟩ := playBody_handlerCB p b.bad b.comps false
+    cases hp : b.panics <;> cases hq : (playComps (p && b.bad) b.comps).2 <;>
+      cases he : (playComps (p && b.bad) b.comps).1.isEmpty <;>
+      simp_all [List.filterMap_append, List.filterMap_cons]
+  · simp only [ht, Bool.false_eq_true, if_false, checkInvokeF_panicCB]
+    simp [List.filterMap_cons]
+
+/-- `SafeCall` with no completion function anywhere (a call without one; a notify): never panics, no completion -/
+theorem safeCallX_nil_view (h : Handler) (ctx : CtxArg) (arg : ArgV) (withCb : Bool) (b : Beh) :
+    (safeCallX h ctx arg withCb .nil .nil b false).panicking = false ∧
+    (safeCallX h ctx arg withCb .nil .nil b false).runs
+      = (if typesOK h ctx arg withCb then [(h, ctx != .nil, arg)] else []) ∧
+    (safeCallX h ctx arg withCb .nil .nil b false).comps = [] := by
+  unfold safeCallX reflectCall Exec.comps Exec.runs
+  have hn : (if withCb = true then CbF.nil else CbF.nil) = CbF.nil := by cases withCb <;> rfl
   by_cases ht : typesOK h ctx arg withCb = true
-  · simp only [ht, if_true]
-    cases hcb : (if withCb then cb else none) with
-    | none =>
-      simp only [handlerBody, playBody_none]
-      cases hp : b.panics <;> cases hs : cb.isSome <;> simp [hs, List.filterMap_cons]
-    | some p =>
-      have hsome : cb.isSome = true := by
-        cases withCb with
-        | false => simp at hcb
-        | true => simp at hcb; simp [hcb]
-      obtain ⟨p1, p2, p3⟩ := playBody_some p b.bad b.comps
-      simp only [handlerBody]
-      cases hp : b.panics <;> cases hq : (playComps (p && b.bad) b.comps).2 <;>
-        simp_all [List.filterMap_append, List.filterMap_cons]
-  · simp only [ht, Bool.false_eq_true, if_false]
-    cases hs : cb.isSome <;> simp [hs, List.filterMap_cons]
+  · simp only [ht, if_true, handlerBody, hn, playBody_nil, checkInvokeF_nil]
+    cases hp : b.panics <;> simp [List.filterMap_cons]
+  · simp only [ht, Bool.false_eq_true, if_false, checkInvokeF_nil]
+    simp
+
+/-- `SafeCall` as `CallMethod` ran a request-shaped handler BEFORE the fix of D23 (`cbFunc` itself in both places):
+one framework error completion whenever the handler panicked — whether or not it had completed -/
+theorem safeCallX_plain_view (h : Handler) (ctx : CtxArg) (arg : ArgV) (p : Bool) (b : Beh) :
+    (safeCallX h ctx arg true (.plain p) (.plain p) b false).panicking = false ∧
+    (safeCallX h ctx arg true (.plain p) (.plain p) b false).runs
+      = (if typesOK h ctx arg true then [(h, ctx != .nil, arg)] else []) ∧
+    (safeCallX h ctx arg true (.plain p) (.plain p) b false).comps =
+      (if typesOK h ctx arg true then
+        (playComps (p && b.bad) b.comps).1 ++ (if (playComps (p && b.bad) b.comps).2 || b.panics then [.f] else [])
+       else [.f]) := by
+  unfold safeCallX reflectCall Exec.comps Exec.runs
+  by_cases ht : typesOK h ctx arg true = true
+  · simp only [ht, if_true, handlerBody, checkInvokeF_plain]
+    obtain ⟨p1, p2, p3, p4⟩ := playBody_plain p b.bad b.comps false
+    cases hp : b.panics <;> cases hq : (playComps (p && b.bad) b.comps).2 <;>
+      simp_all [List.filterMap_append, List.filterMap_cons]
+  · simp only [ht, Bool.false_eq_true, if_false, checkInvokeF_plain]
+    simp [List.filterMap_cons]
 
 /-! ### the summary model is what the executions do -/
 
@@ -144,22 +222,44 @@ theorem callMethodX_refines (c : Container) (m : Bytes) (ctx : CtxArg) (arg : Ar
     simp only []
     cases hr : h.isRequest with
     | true =>
-      obtain ⟨v1, v2, v3⟩ := safeCallX_view h ctx arg true cb b
-      simp only [if_true, v1, v2, v3, safeCall, true_and]
-      by_cases ht : typesOK h ctx arg true = true
-      · cases cb with
-        | none => simp [ht, runsOf, completionsG]
-        | some p =>
-          rcases hpc : playComps (p && b.bad) b.comps with ⟨l, pn⟩
+      cases cb with
+      | none =>
+        obtain ⟨v1, v2, v3⟩ := safeCallX_nil_view h ctx arg true b
+        simp only [if_true, v1, v2, v3, safeCall, true_and]
+        by_cases ht : typesOK h ctx arg true = true <;> simp [ht, runsOf, completionsG]
+      | some p =>
+        obtain ⟨v1, v2, v3⟩ := safeCallX_wrapped_view h ctx arg p b
+        simp only [if_true, v1, v2, v3, safeCall, true_and]
+        by_cases ht : typesOK h ctx arg true = true
+        · rcases hpc : playComps (p && b.bad) b.comps with ⟨l, pn⟩
           cases p <;> simp_all [runsOf, completionsG, cbPanicsOf]
-      · cases cb <;> simp [ht, runsOf, completionsG]
+        · simp [ht, runsOf, completionsG]
     | false =>
       cases cb with
       | some p => simp [Exec.comps, Exec.runs, runsOf, completionsG]
       | none =>
-        obtain ⟨v1, v2, v3⟩ := safeCallX_view h ctx arg false none b
+        obtain ⟨v1, v2, v3⟩ := safeCallX_nil_view h ctx arg false b
         simp only [Option.isSome_none, Bool.false_eq_true, if_false, v1, v2, v3, safeCall, true_and]
         by_cases ht : typesOK h ctx arg false = true <;> simp [ht, runsOf, completionsG]
+
+/-- the code before the fix of D23, same statement against `completionsGPre` (for a completion function) -/
+theorem callMethodXPre_comps (c : Container) (m : Bytes) (ctx : CtxArg) (arg : ArgV) (p : Bool) (b : Beh) :
+    (callMethodXPre c m ctx arg (some p) b).comps
+      = completionsGPre (cbPanicsOf (some p) b) (callMethod c m ctx arg true) true b := by
+  unfold callMethodXPre callMethod
+  cases hl : lookup c.handlers m with
+  | none => simp [Exec.comps, completionsGPre, List.filterMap_cons]
+  | some h =>
+    simp only []
+    cases hr : h.isRequest with
+    | true =>
+      obtain ⟨v1, v2, v3⟩ := safeCallX_plain_view h ctx arg p b
+      simp only [if_true, CbF.ofCb, v3, safeCall]
+      by_cases ht : typesOK h ctx arg true = true
+      · rcases hpc : playComps (p && b.bad) b.comps with ⟨l, pn⟩
+        cases p <;> simp_all [completionsGPre, cbPanicsOf]
+      · simp [ht, completionsGPre]
+    | false => simp [Exec.comps, completionsGPre]
 
 theorem callX_refines (col : Collection) (route : Bytes) (ctx : CtxArg) (arg : ArgV) (cb : Cb) (b : Beh) :
     (callX col route ctx arg cb b).panicking = false ∧
@@ -269,9 +369,14 @@ theorem checkInvokeCB_sound (cb : Cb) : ∀ e ∈ (checkInvokeCB cb).evs, e.soun
   · simp only [List.mem_singleton] at he; subst he; rfl
   · simp at he
 
-theorem safeCallX_sound (h : Handler) (ctx : CtxArg) (arg : ArgV) (withCb : Bool) (cb : Cb) (b : Beh) :
-    ∀ e ∈ (safeCallX h ctx arg withCb cb b).evs, e.sound := by
-  have hbody : ∀ e ∈ (reflectCall h ctx arg withCb cb b).evs, e.sound := by
+theorem checkInvokeF_sound (f : CbF) (d : Bool) : ∀ e ∈ (checkInvokeF f d).evs, e.sound := by
+  intro e he
+  cases f <;> cases d <;>
+    simp [checkInvokeF, CbF.isNil, CbF.call, invokeCb, Exec.emit, Exec.ret] at he <;> (subst he; rfl)
+
+theorem safeCallX_sound (h : Handler) (ctx : CtxArg) (arg : ArgV) (withCb : Bool) (hcb pcb : CbF) (b : Beh) (d : Bool) :
+    ∀ e ∈ (safeCallX h ctx arg withCb hcb pcb b d).evs, e.sound := by
+  have hbody : ∀ e ∈ (reflectCall h ctx arg withCb hcb b d).1.evs, e.sound := by
     intro e he
     unfold reflectCall at he
     split at he
@@ -279,15 +384,15 @@ theorem safeCallX_sound (h : Handler) (ctx : CtxArg) (arg : ArgV) (withCb : Bool
         List.singleton_append, List.mem_cons] at he
       rcases he with rfl | he
       · trivial
-      · generalize (if withCb = true then cb else none) = cb' at he
-        have : e ∈ (playBody cb' b.bad b.comps).evs := by
-          by_cases hp : (playBody cb' b.bad b.comps).panicking = true
+      · generalize (if withCb = true then hcb else CbF.nil) = cb' at he
+        have : e ∈ (playBody cb' b.bad b.comps d).1.evs := by
+          by_cases hp : (playBody cb' b.bad b.comps d).1.panicking = true
           · simpa [hp] using he
           · simp only [hp] at he
             rcases List.mem_append.1 he with h1 | h1
             · exact h1
             · cases hb : b.panics <;> simp [hb] at h1
-        obtain ⟨isErr, rfl⟩ := playBody_evs_byHandler _ _ _ e this
+        obtain ⟨isErr, rfl⟩ := playBody_evs_byHandler _ _ _ _ e this
         trivial
     · simp at he
   intro e he
@@ -295,7 +400,7 @@ theorem safeCallX_sound (h : Handler) (ctx : CtxArg) (arg : ArgV) (withCb : Bool
   split at he
   · rcases List.mem_append.1 he with h1 | h1
     · exact hbody e h1
-    · exact checkInvokeCB_sound cb e h1
+    · exact checkInvokeF_sound _ _ e h1
   · exact hbody e he
 
 theorem callX_sound (col : Collection) (route : Bytes) (ctx : CtxArg) (arg : ArgV) (cb : Cb) (b : Beh) :
@@ -309,10 +414,10 @@ theorem callX_sound (col : Collection) (route : Bytes) (ctx : CtxArg) (arg : Arg
       split
       · exact checkInvokeCB_sound cb
       · split
-        · exact safeCallX_sound _ _ _ _ _ _
+        · split <;> exact safeCallX_sound _ _ _ _ _ _ _ _
         · split
           · simp
-          · exact safeCallX_sound _ _ _ _ _ _
+          · exact safeCallX_sound _ _ _ _ _ _ _ _
 
 theorem callWithSerializeX_sound (col : Collection) (ser : Option DecoderX) (route : Bytes) (ctx : CtxArg)
     (data : Bytes) (cb : Cb) (b : Beh) :
